@@ -638,6 +638,6 @@ def sources(tier):
         return [Hyp("documents", gen_doc(), 300, shards=8),
                 Hyp("codec", gen_codec(), 900, shards=6),
                 Hyp("lists", gen_list, 500, shards=2)]
-    return [Hyp("documents", gen_doc(), 8000, shards=16),
+    return [Hyp("documents", gen_doc(), 6000, shards=16),
             Hyp("codec", gen_codec(), 8000, shards=8),
             Hyp("lists", gen_list, 4000, shards=4)]
